@@ -717,7 +717,10 @@ def assign_model(ctx):
             env = dict(mscope)
             env.update({'args.bin': binv, 'args.binTag': 'DS', 'args.byValue': byv, 'args.r1only': mate == 'r1only', 'args.r2only': mate == 'r2only', 'args.doNotDivideFragments': nodiv,
                    'args.divideMultimapping': hits is not None, 'args.splitFeatures': False, 'args.sliding': None, 'args.keepOverBounds': keep, 'args.ref_lengths': {'chr1': 10000},
-                   'args.bedfile': None, 'args.featureDelimiter': ',', 'read.reference_name': 'chr1', 'read.is_paired': paired, 'read.mate_is_unmapped': mate_unmapped})
+                   'args.bedfile': None, 'args.featureDelimiter': ',', 'read.reference_name': 'chr1', 'read.is_paired': paired, 'read.mate_is_unmapped': mate_unmapped,
+                   # a pair can be mapped without being flagged proper (discordant / mate on another contig): the weight does not look at that flag
+                   'read.is_proper_pair': paired and not mate_unmapped and not nodiv and binv is not None, 'read.is_read1': True, 'read.is_read2': False, 'read.is_unmapped': False,
+                   'read.is_duplicate': False, 'read.is_qcfail': False, 'read.mapping_quality': 60, 'read.reference_start': 1500, 'read.reference_end': 1540})
             table = Table()
             n += 1
             case = {'bin': binv, 'binTag': 'DS', 'byValue': byv, 'featureTags': tags, 'paired with mapped mate': paired, 'doNotDivideFragments': nodiv, 'keepOverBounds': keep, 'tag values': vals,
